@@ -60,13 +60,25 @@ func Reset() {
 	counters = map[string]int{}
 	Failed = nil
 	Reached = map[string]int{}
+	AssumeStopped = false
 }
+
+// LoadReplay switches to another recorded model (translator validation runs several in one process).
+func LoadReplay(path string) {
+	model = nil
+	os.Setenv("ZZVERIF_REPLAY", path)
+	load()
+}
+
+// AssumeStopped: the native run ended at a failed assumption.
+var AssumeStopped bool
 
 // RunNative runs a harness natively, absorbing failed assumptions.
 func RunNative(f func()) (panicked interface{}) {
 	defer func() {
 		if r := recover(); r != nil {
 			if _, ok := r.(assumeFailed); ok {
+				AssumeStopped = true
 				return
 			}
 			panicked = r
